@@ -55,7 +55,8 @@ func main() {
 			"for a request the stack flags (bad framing) or stops (loop) only the error / 400 / not-sent-upstream clauses are demanded; what happens to that request's other headers is not specified (fifo.Group stops at the first error)",
 			"Content-Length is compared as a framing fact (same single value; may be dropped next to Transfer-Encoding: chunked), not as an untouched header: a proxy may collapse equal duplicates (RFC 7230 3.3.2)",
 			"in proxy mode Host, Content-Length, Transfer-Encoding, Trailer and a Connection header consisting only of close/keep-alive are the proxy's own framing for the next hop and are not counted as survivors",
-			"Connection lists never name Via, X-Forwarded-*, Host or Content-Length; loop entries are never combined with bad framing; Transfer-Encoding values spell 'chunked' in lower case",
+			"a Connection list may name the headers the stack stamps (Via, X-Forwarded-*): the client's lines go, the proxy's own stamp stays; it never names Host or Content-Length, and never Via while a Via entry names this instance",
+			"loop entries are never combined with bad framing; Transfer-Encoding values spell 'chunked' in lower case; a Via element that is the bare instance name (no protocol) is not generated",
 		},
 		RaceFiles: []string{"/header/", "/httpspec/"},
 		Plan: func(tier string, seed int64) []vh.Batch {
